@@ -167,6 +167,12 @@ func VerifC06Steady() {
 		verifAssert(int(d.numDropNoConnNoSpool.Count()-d0) == 2, "after-close-every-line-counted-conn-down")
 	case 2:
 		verifAssert(dropped == 0, "stalled-no-conn-down-drops")
+		if verifBool("manual-flush-while-writer-blocked") {
+			// a manual flush (Destination.Flush, as Shutdown issues it) is requested while the connection's writer
+			// is stuck in a socket write; it is served once the endpoint reads again
+			go d.Flush()
+			verifSettle()
+		}
 		// the endpoint starts reading again (it was healthy but slow): everything that was not counted as a
 		// slow-connection drop arrives
 		verifEndpointStall(0, false)
